@@ -407,6 +407,15 @@ pub fn eval_program<'a>(
                     .at(res.relation().span()),
             );
         }
+        // A path identifies one resource.
+        let pattern = rel.uri.pattern();
+        if rels.iter().any(|r: &Relation| r.uri.pattern() == pattern) {
+            return Err(
+                Error::new(Kind::InvalidIdentifier, "resource path already exists")
+                    .with(&pattern)
+                    .at(res.relation().span()),
+            );
+        }
         rels.push(rel);
     }
 
